@@ -3,7 +3,7 @@ import re
 
 from facts import AnchorMissing, callee, nodes, unblock, walk
 from shared import Spec, arm_rows, the_match
-from c17_util import (BIND, LABEL, TI, Flat, NameFlow, Scope, arm_binders, fshort, keyword_table, oracle, pat_binds, render,
+from c17_util import (BIND, LABEL, TI, Flat, NameFlow, Scope, alias_root, arm_binders, fshort, keyword_table, oracle, pat_binds, render,
                       root_local, var_binders)
 
 TITLE = ("C17: javascript::pp_ty maps every Candid constructor to the @dfinity/candid IDL builder of the same meaning; "
@@ -22,15 +22,21 @@ def peel_unwrap(e):
     return e
 
 
-def contains_ifs(node):
-    """`if [!]set.contains(x) { A } else { B }` under node: -> [(the contains call, branch taken when x is a member, other branch)]"""
+def contains_ifs(node, sc=None):
+    """`if [!]set.contains(x) { A } else { B }` under node (the test may be let-bound first):
+    -> [(the contains call, branch taken when x is a member, other branch)]"""
     out = []
     for n in nodes(node, "if"):
         cnd = unblock(n["c"])
         neg = False
-        while cnd.get("k") == "un" and cnd.get("op") == "Not":
-            neg = not neg
-            cnd = unblock(cnd["a"])
+        for _ in range(6):
+            if cnd.get("k") == "un" and cnd.get("op") == "Not":
+                neg = not neg
+                cnd = unblock(cnd["a"])
+            elif cnd.get("k") == "path" and sc is not None and sc.binder_of(cnd) is not None and sc.binder_of(cnd).init is not None:
+                cnd = unblock(sc.binder_of(cnd).init)
+            else:
+                break
         if cnd.get("k") == "mcall" and cnd["m"] == "contains":
             out.append((cnd, n.get("e") if neg else n["t"], n["t"] if neg else n.get("e")))
     return out
@@ -159,7 +165,6 @@ def run(chk, facts, tier, only=None):
                 retf = [x for x in nodes(n["t"], "ret") if x.get("e") and x["e"].get("k") == "lit" and x["e"]["v"].get("bool") is False]
                 enum = any(x.get("k") == "mcall" and x["m"] == "enumerate" for x in walk(t["body"]))
                 idcmp = bool(gid and idx and retf and enum)
-        tail = unblock(t["body"]).get("e") if t["body"].get("k") == "block" else None
         tail_true = isinstance(t["body"].get("e"), dict) and t["body"]["e"].get("k") == "lit" and t["body"]["e"]["v"].get("bool") is True
         chk.expect(empty_false and idcmp and tail_true, "tuple-shorthand:is_tuple_fields",
                    "javascript::is_tuple_fields must answer false for no fields, false as soon as field i does not have id i, true otherwise "
@@ -331,14 +336,14 @@ def run(chk, facts, tier, only=None):
             vb = arm_binders(sc, m, a)[0]
             g = a.get("guard")
             okg = isinstance(g, dict) and unblock(g).get("k") == "mcall" and unblock(g)["m"] == "insert" \
-                and "BTreeSet" in unblock(g)["callee"] and root_local(sc, unblock(g)["args"][0]) is vb
+                and "BTreeSet" in unblock(g)["callee"] and alias_root(sc, unblock(g)["args"][0]) is vb
             chk.expect(okg, "chase_type:visit-once", "chase_type: the Var arm must be guarded by `seen.insert(id)` (each definition is chased and listed once)",
                        ok_detail="guard seen.insert(id)")
             body = a["body"]
             stmts = list(body.get("stmts") or []) + ([body["e"]] if body.get("e") else []) if body.get("k") == "block" else []
             i_rec = [i for i, st in enumerate(stmts) if any(x.get("k") == "call" and callee(x) == h["key"] for x in walk(st))]
             i_push = [i for i, st in enumerate(stmts) if any(x.get("k") == "mcall" and x["m"] == "push" and "Vec" in x["callee"]
-                                                              and root_local(sc, x["args"][0]) is vb for x in walk(st))]
+                                                              and alias_root(sc, x["args"][0]) is vb for x in walk(st))]
             if not i_rec or not i_push:
                 raise AnchorMissing(f"chase_type: recursive call ({i_rec}) or `res.push(id)` ({i_push}) not found at statement level of the Var arm")
             chk.expect(max(i_rec) < min(i_push), "chase_type:push-after-recursion",
@@ -376,11 +381,11 @@ def run(chk, facts, tier, only=None):
         body = somearm["body"]
         stmts = list(body.get("stmts") or []) + ([body["e"]] if body.get("e") else [])
         i_go = [i for i, st in enumerate(stmts) if any(x.get("k") == "call" and callee(x) == g["key"] for x in walk(st))]
-        i_ins = [i for i, st in enumerate(stmts) if any(x.get("k") == "mcall" and x["m"] == "insert" and root_local(hs, x["args"][0]) is var for x in walk(st))]
+        i_ins = [i for i, st in enumerate(stmts) if any(x.get("k") == "mcall" and x["m"] == "insert" and alias_root(hs, x["args"][0]) is var for x in walk(st))]
         if not i_go or not i_ins:
             raise AnchorMissing("infer_rec: call of `go` or `seen.insert(var)` not found in the loop body")
         gocall = [x for st in stmts for x in walk(st) if x.get("k") == "call" and callee(x) == g["key"]][0]
-        inscall = [x for st in stmts for x in walk(st) if x.get("k") == "mcall" and x["m"] == "insert" and root_local(hs, x["args"][0]) is var][0]
+        inscall = [x for st in stmts for x in walk(st) if x.get("k") == "mcall" and x["m"] == "insert" and alias_root(hs, x["args"][0]) is var][0]
         same_seen = root_local(hs, gocall["args"][p_seen.idx]) is root_local(hs, inscall["recv"]) is not None
         tail = unblock(h["body"]["e"]) if h["body"].get("e") else {}
         ret_res = tail.get("k") == "call" and (callee(tail) or "").endswith("Result::Ok") and \
@@ -404,7 +409,7 @@ def run(chk, facts, tier, only=None):
             A, B = B, A     # the declarations are appended after the definitions: reported below
         la = lits(fa.flat(A.init))
         declares = any("IDL.Rec()" in x for x in la) and "const" in la and first_is_rec
-        ifs = contains_ifs(B.init)
+        ifs = contains_ifs(B.init, sc)
         if len(ifs) != 1:
             raise AnchorMissing("javascript::pp_defs: `if recs.contains(id)` not found in the definitions part")
         cnd, br_in, br_out = ifs[0]
@@ -428,14 +433,14 @@ def run(chk, facts, tier, only=None):
         h = fn("pp_actor")
         sc = scope(h["key"])
         vbs = var_binders(sc)
-        ifs = contains_ifs(h["body"])
+        ifs = contains_ifs(h["body"], sc)
         if len(ifs) != 1 or len(vbs) != 1:
             raise AnchorMissing("javascript::pp_actor: `if recs.contains(id)` in the Var arm not found")
         cnd, br_in, br_out = ifs[0]
         fa = Flat([c, cc], sc)
         tl, el = lits(fa.flat(br_in)), lits(fa.flat(br_out))
         R = root_local(sc, cnd["recv"])
-        chk.expect(".getType()" in tl and ".getType()" not in el and root_local(sc, cnd["args"][0]) is vbs[0] and R is not None
+        chk.expect(".getType()" in tl and ".getType()" not in el and alias_root(sc, cnd["args"][0]) is vbs[0] and R is not None
                    and R.kind == "param" and "BTreeSet" in (R.ty or ""), "pp_actor:getType-iff-rec",
                    f"javascript::pp_actor must append `.getType()` to the actor's type name exactly when it is in `recs` (an IDL.Rec() is not a "
                    f"service type); literals for a member of recs: {tl}, for a non-member: {el}", ok_detail="recs.contains(id) ? id.getType() : id")
